@@ -176,15 +176,22 @@ def run(ctx: Ctx):
     gmp = _cfg(mp)
     scans = [n for n in gmp.nodes if n.kind == "stmt" and n.ast is not None and any(
         isinstance(c, ast.Call) and norm(c.func) in ("self._extract_macros", "self._extract_project_dates", "self._expand_macros") for c in ast.walk(n.ast))]
-    strips = [n for n in gmp.nodes if n.kind == "stmt" and isinstance(n.ast, ast.Assign) and isinstance(n.ast.value, ast.Call)
-              and norm(n.ast.value.func) in ("strip_comments", "strip_shell_comments") and norm(n.ast.targets[0]) == norm(n.ast.value.args[0])]
     if not scans:
         raise AnchorMissing("MacroProcessor.process: macro scans not found")
-    dom_mp = gmp.dominators()
-    ok = bool(strips) and all(any(s_.id in dom_mp[x.id] for s_ in strips) for x in scans)
+    # every scan's argument derives from the stripper's result (dataflow), whatever the intermediate names
+    fdmp = ctx.dep.of(mp)
+    stripper_names = {"strip_comments", "strip_shell_comments"}
+    ok = True
+    for x in scans:
+        for c in ast.walk(x.ast):
+            if isinstance(c, ast.Call) and norm(c.func) in ("self._extract_macros", "self._extract_project_dates", "self._expand_macros") and c.args:
+                if not ({"call:" + n_ for n_ in stripper_names} & full(fdmp.deps_of(c.args[0]))):
+                    ok = False
+    strips = [n for n in gmp.nodes if n.kind == "stmt" and n.ast is not None and any(
+        isinstance(c, ast.Call) and norm(c.func) in stripper_names for c in ast.walk(n.ast))]
     kinds = set()
     for s_ in strips:
-        fname = norm(s_.ast.value.func)
+        fname = next(norm(c.func) for c in ast.walk(s_.ast) if isinstance(c, ast.Call) and norm(c.func) in stripper_names)
         if repo.has_func(fname):
             for c in own_nodes(repo.func(fname)):
                 if isinstance(c, ast.Constant) and isinstance(c.value, str) and c.value in ("#", "//", "/*"):
